@@ -1054,7 +1054,19 @@ func (x *Exec) applySpecFn(env *Env, sf *SpecFn, args []Val) Val {
 	// translate the body (in the heap state at hand) to find out which heap
 	// versions it reads; the symbol is indexed by those
 	x.recPending[sf.Name] = true
-	n := &Env{x: x, st: &State{vals: env.st.vals, heaps: copyHeaps(env.st.heaps), names: env.st.names, entry: env.st.entry}, vars: map[string]Val{}, pkg: env.pkg, depth: env.depth}
+	hs := copyHeaps(env.st.heaps)
+	if env.st.entry != nil {
+		// frozen heaps: like an uninterpreted specification function, a named
+		// (recursive) one is evaluated on the entry version of frozen memory
+		for h := range hs {
+			if x.isFrozen(h) {
+				if t, ok := env.st.entry.heaps[h]; ok {
+					hs[h] = t
+				}
+			}
+		}
+	}
+	n := &Env{x: x, st: &State{vals: env.st.vals, heaps: hs, names: env.st.names, entry: env.st.entry}, vars: map[string]Val{}, pkg: env.pkg, depth: env.depth}
 	var binds []string
 	var bvars []Term
 	for i, p := range sf.Params {
